@@ -10,6 +10,7 @@
 (* generic and fixed formats with the real parameters used by the backends / defined by OffsetType.           *)
 EXTENDS OffsetCodec, TLC
 
+CONSTANT Dense      \* TRUE: every power of two 2^3..2^62 (+-3) as sample displacement; FALSE: the limits of the formats only
 VARIABLES grp, f    \* grp: work group (only there to spread the formats over the workers of TLC), f: the format
 
 F(t, vs, n, sh, d) == [t |-> t, vs |-> vs, n |-> n, sh |-> sh, d |-> d]
@@ -30,7 +31,7 @@ PowBits(k, e, neg) == LET base == [j \in 1..64 |-> IF j = k + 1 THEN 1 ELSE 0]
                                ELSE IF e > 0 THEN [j \in 1..64 |-> IF j = k + 1 \/ j = e THEN 1 ELSE 0]     \* 2^k + 2^(e-1)
                                ELSE [j \in 1..64 |-> IF j <= k /\ j >= 0 - e THEN 1 ELSE 0]                  \* 2^k - 2^(-e-1)
                       IN IF neg THEN Neg(v) ELSE v
-Xs == {BitsOfInt(v) : v \in Ints} \cup {PowBits(k, e, s) : k \in 3..62, e \in {0 - 3, 0 - 2, 0 - 1, 0, 1, 2, 3}, s \in BOOLEAN}
+Xs == {BitsOfInt(v) : v \in Ints} \cup {PowBits(k, e, s) : k \in (IF Dense THEN 3..62 ELSE {7, 8, 11, 12, 13, 15, 16, 20, 21, 22, 24, 25, 26, 27, 28, 31, 32, 33, 62}), e \in {0 - 3, 0 - 2, 0 - 1, 0, 1, 2, 3}, s \in BOOLEAN}
 
 (* pseudo-random words of the format's size (16-bit LCG per limb) *)
 Lcg(s) == (s * 25173 + 13849) % 65536
